@@ -90,7 +90,7 @@ Definition allb : nat := nblocks N na * PB.
 Definition cpot (c : cpc) (b : nat) : nat :=
   let inblk r := Tl + remb b + r in
   match c with
-  | CCreate k => Tl + allb + (N - k) * (1 + wmax) + 1
+  | CCreate k => Tl + allb + 1
   | CLockA => inblk PB
   | CSetRun => inblk (5 + Srun)
   | CUnlockA => inblk 4
@@ -107,12 +107,17 @@ Definition cpot (c : cpc) (b : nat) : nat :=
   | CDone => 0
   end.
 
+(* while the threads are being created: one step per pthread_create still to come, and the potential the new worker
+   starts with (3, or a whole round more should its trial->state already be RUN; it never is in a reachable state) *)
+Definition crt (c : cpc) (x : nat -> wst) : nat :=
+  match c with CCreate k => wsumn N (fun j => if k <=? j then 1 + wpot WLock1 (x j) else 0) | _ => 0 end.
+
 Definition wsum (s : state) : nat := wsumn N (fun j => wpot (wp s j) (st s j)).
-Definition Phi (s : state) : nat := cpot (cp s) (blk s) + wsum s.
+Definition Phi (s : state) : nat := cpot (cp s) (blk s) + crt (cp s) (st s) + wsum s.
 
 (* the bounds *)
-Definition B0 : nat := Tl + allb + N * (1 + wmax) + 1.
-Definition Bmax : nat := B0 + PB + N * wmax.
+Definition B0 : nat := Tl + allb + 3 * N + 1.
+Definition Bmax : nat := B0 + PB + N * (1 + 2 * wmax).
 
 Lemma wpot_le_wmax : forall p x, wpot p x <= wmax.
 Proof. intros p x. unfold wmax. destruct p, x; simpl; lia. Qed.
@@ -126,24 +131,61 @@ Proof. intros c b. destruct c; simpl; lia. Qed.
 Lemma term_pot : forall p x, wpot (wake_w p) TERM <= wpot p x + 2.
 Proof. intros p x. destruct p, x; simpl; lia. Qed.
 
+Lemma crt_le : forall c x, crt c x <= N * (1 + wmax).
+Proof.
+  intros c x. destruct c; cbn [crt]; try lia.
+  assert (H := wsumn_bound N (fun _ => 0) (fun j => if k <=? j then 1 + wpot WLock1 (x j) else 0) (1 + wmax)).
+  rewrite (wsumn_const0 N (fun _ => 0)) in H by reflexivity. apply H.
+  intros j _. assert (H2 := wpot_le_wmax WLock1 (x j)). destruct (k <=? j); lia.
+Qed.
+
+(* trial->state = WAIT (the worker reports) can only lower it; a broadcast does not change it *)
+Lemma crt_report : forall c x j0, crt (wake_c c) (upd x j0 WAIT) <= crt c x.
+Proof.
+  intros c x j0. destruct c; cbn [crt wake_c]; try lia.
+  apply wsumn_le. intros j _. destruct (k <=? j); [|lia]. unfold upd. destruct (j =? j0); [|lia].
+  destruct (x j); simpl; lia.
+Qed.
+
+Lemma crt_loop_head : forall i sc x, crt (loop_head N na i sc) x = 0.
+Proof. intros i sc x. unfold loop_head. destruct ((i <? nblocks N na) && negb sc); reflexivity. Qed.
+
+(* pthread_create of worker k: its share of crt pays the step and the new worker's potential *)
+Lemma crt_create : forall k x, k < N -> crt (CCreate (S k)) x + 1 + wpot WLock1 (x k) <= crt (CCreate k) x.
+Proof.
+  intros k x Hk. cbn [crt].
+  assert (H := wsumn_single N (fun j => if k <=? j then 1 + wpot WLock1 (x j) else 0)
+                 (fun j => if S k <=? j then 1 + wpot WLock1 (x j) else 0) k 0 Hk).
+  cbv beta in H. rewrite Nat.leb_refl in H. assert (E : (S k <=? k) = false) by (apply Nat.leb_gt; lia). rewrite E in H.
+  rewrite Nat.mul_0_r in H.
+  assert (H' : forall j, j < N -> j <> k -> (if S k <=? j then 1 + wpot WLock1 (x j) else 0) <= (if k <=? j then 1 + wpot WLock1 (x j) else 0) + 0).
+  { intros j _ Hne. destruct (S k <=? j) eqn:E1; [|lia]. apply Nat.leb_le in E1.
+    assert (E2 : (k <=? j) = true) by (apply Nat.leb_le; lia). rewrite E2. lia. }
+  specialize (H H'). lia.
+Qed.
+
+Lemma wsumn_const : forall n c, wsumn n (fun _ => c) = n * c.
+Proof. induction n as [|n IH]; intro c; simpl; [reflexivity|]. rewrite IH. lia. Qed.
+
 Lemma Phi_init : Phi init = B0.
 Proof.
-  unfold Phi, wsum, B0. simpl. rewrite wsumn_const0 by reflexivity. rewrite Nat.sub_0_r. lia.
+  unfold Phi, wsum, B0. cbn [cp blk st wp init cpot crt].
+  assert (E : wsumn N (fun j => if 0 <=? j then 1 + wpot WLock1 WAIT else 0) = wsumn N (fun _ => 3)) by reflexivity.
+  rewrite E, wsumn_const. rewrite wsumn_const0 by reflexivity. lia.
 Qed.
 
 Lemma cpot_le : forall c b, cpot c b <= B0 + PB.
 Proof.
   intros c b. unfold B0.
   assert (Hr : remb b <= allb) by (apply Nat.mul_le_mono_r; lia).
-  assert (Hk : forall k, (N - k) * (1 + wmax) <= N * (1 + wmax)) by (intro k; apply Nat.mul_le_mono_r; lia).
   assert (HS : Srun + 6 = PB) by (unfold PB; lia).
-  destruct c as [k| | | | | | | | | | | |k| |]; cbn [cpot]; try specialize (Hk k); unfold Tl in *; lia.
+  destruct c as [k| | | | | | | | | | | |k| |]; cbn [cpot]; unfold Tl in *; lia.
 Qed.
 
 Lemma Phi_le_Bmax : forall s, Phi s <= Bmax.
 Proof.
   intro s. unfold Phi, Bmax, wsum.
-  assert (H1 := cpot_le (cp s) (blk s)).
+  assert (H1 := cpot_le (cp s) (blk s)). assert (H3 := crt_le (cp s) (st s)).
   assert (H2 : wsumn N (fun j => wpot (wp s j) (st s j)) <= wsumn N (fun _ => 0) + N * wmax).
   { apply wsumn_bound. intros j _. apply wpot_le_wmax. }
   rewrite (wsumn_const0 N (fun _ => 0)) in H2 by reflexivity. lia.
@@ -191,7 +233,7 @@ Proof.
     assert (H := wsum_move s j0 WReport Hj). rewrite Hp in H. cbn [wpot] in H. lia.
   - (* WReport: state = WAIT; broadcast *) inversion Hs; subst s'; clear Hs.
     unfold Phi, wake_all. cbn [cp blk set_wp set_cp set_st]. unfold wsum at 1. cbn [wp st set_wp set_cp set_st].
-    assert (Hc := wake_c_pot (cp s) (blk s)).
+    assert (Hc := wake_c_pot (cp s) (blk s)). assert (Hcr := crt_report (cp s) (st s) j0).
     assert (H := wsumn_single N (fun j => wpot (wp s j) (st s j))
                    (fun j => wpot (upd (fun j1 => wake_w (wp s j1)) j0 WUnlock2 j) (upd (st s) j0 WAIT j)) j0 2 Hj).
     cbv beta in H. rewrite !upd_eq, Hp in H. cbn [wpot wcheck] in H.
@@ -235,22 +277,16 @@ Proof.
   destruct (cp s) as [k| | | | |chk| | | | | | |k| |] eqn:Hc; try discriminate Hs.
   - (* CCreate k *) inversion Hs; subst s'; clear Hs.
     unfold Phi. cbn [cp blk set_wp set_cp]. rewrite Hc. unfold wsum at 1. cbn [wp st set_wp set_cp].
-    assert (Hw : wsumn N (fun j => wpot (upd (wp s) k WLock1 j) (st s j)) + (if k <? N then 0 else wmax) <= wsum s + wmax).
-    { destruct (k <? N) eqn:Ek.
-      - apply Nat.ltb_lt in Ek. assert (H := wsum_move s k WLock1 Ek).
-        assert (H2 := wpot_le_wmax WLock1 (st s k)). lia.
-      - apply Nat.ltb_ge in Ek. assert (H : wsumn N (fun j => wpot (upd (wp s) k WLock1 j) (st s j)) <= wsum s).
-        { apply wsumn_le. intros j Hj. rewrite upd_ne by lia. lia. }
-        lia. }
-    destruct (S k <? N) eqn:Ek.
-    + apply Nat.ltb_lt in Ek. assert (Ek' : (k <? N) = true) by (apply Nat.ltb_lt; lia). rewrite Ek' in Hw.
-      cbn [cpot]. replace (N - k) with (S (N - S k)) by lia. rewrite Nat.mul_succ_l. lia.
-    + apply Nat.ltb_ge in Ek. assert (H0 := loop_head0_pot (blk s)). cbn [cpot].
-      destruct (k <? N) eqn:Ek'.
-      * apply Nat.ltb_lt in Ek'. replace (N - k) with 1 by lia. lia.
-      * apply Nat.ltb_ge in Ek'. replace (N - k) with 0 by lia. lia.
+    assert (H0 := loop_head0_pot (blk s)). assert (Hl := crt_loop_head 0 false (st s)).
+    destruct (k <? N) eqn:Ek'.
+    + apply Nat.ltb_lt in Ek'. assert (Hm := wsum_move s k WLock1 Ek'). assert (Hcr := crt_create k (st s) Ek').
+      destruct (S k <? N); [cbn [cpot]|rewrite Hl; cbn [cpot]]; lia.
+    + apply Nat.ltb_ge in Ek'. assert (E : (S k <? N) = false) by (apply Nat.ltb_ge; lia). rewrite E.
+      assert (H : wsumn N (fun j => wpot (upd (wp s) k WLock1 j) (st s j)) <= wsum s).
+      { apply wsumn_le. intros j Hj. rewrite upd_ne by lia. lia. }
+      cbn [cpot]. lia.
   - (* CLockA *) destruct (free s); [|discriminate]. inversion Hs; subst s'; clear Hs.
-    unfold Phi, wsum. cbn [cp blk wp st set_cp set_mtx]. rewrite Hc. cbn [cpot]. unfold PB. lia.
+    unfold Phi, wsum. cbn [cp blk wp st set_cp set_mtx]. rewrite Hc. cbn [cpot crt]. unfold PB. lia.
   - (* CSetRun *) inversion Hs; subst s'; clear Hs.
     unfold Phi, wake_all. cbn [cp blk set_cp set_wp set_st set_alpha]. rewrite Hc. unfold wsum. cbn [wp st set_cp set_wp set_st set_alpha].
     assert (H : wsumn N (fun j => wpot (wake_w (wp s j)) (if in_block N na (blk s) j then RUN else st s j))
@@ -258,33 +294,33 @@ Proof.
     { apply wsumn_bound. intros j _. destruct (in_block N na (blk s) j).
       - destruct (wp s j), (st s j); simpl; lia.
       - assert (H := wake_w_pot (wp s j) (st s j)). lia. }
-    cbn [cpot]. unfold Srun. lia.
+    cbn [cpot crt]. unfold Srun. lia.
   - (* CUnlockA *) inversion Hs; subst s'; clear Hs.
-    unfold Phi, wsum. cbn [cp blk wp st set_cp set_mtx]. rewrite Hc. cbn [cpot]. lia.
+    unfold Phi, wsum. cbn [cp blk wp st set_cp set_mtx]. rewrite Hc. cbn [cpot crt]. lia.
   - (* CLockB *) destruct (free s); [|discriminate]. inversion Hs; subst s'; clear Hs.
-    unfold Phi, wsum. cbn [cp blk wp st set_cp set_mtx]. rewrite Hc. cbn [cpot]. lia.
+    unfold Phi, wsum. cbn [cp blk wp st set_cp set_mtx]. rewrite Hc. cbn [cpot crt]. lia.
   - (* CLoopB *) destruct (chk && all_done N na s); inversion Hs; subst s'; clear Hs;
-    unfold Phi, wsum; cbn [cp blk wp st set_cp set_mtx]; rewrite Hc; cbn [cpot]; lia.
+    unfold Phi, wsum; cbn [cp blk wp st set_cp set_mtx]; rewrite Hc; cbn [cpot crt]; lia.
   - (* CWoken *) destruct (free s); [|discriminate]. inversion Hs; subst s'; clear Hs.
-    unfold Phi, wsum. cbn [cp blk wp st set_cp set_mtx]. rewrite Hc. cbn [cpot]. lia.
+    unfold Phi, wsum. cbn [cp blk wp st set_cp set_mtx]. rewrite Hc. cbn [cpot crt]. lia.
   - (* CRead *) destruct (scan N na lt (blk s) (out s) (seq 0 N) (res s)) as [r sel]. inversion Hs; subst s'; clear Hs.
-    unfold Phi, wsum. cbn [cp blk wp st]. rewrite Hc. cbn [cpot].
+    unfold Phi, wsum. cbn [cp blk wp st]. rewrite Hc, crt_loop_head. cbn [cpot crt].
     assert (H := loop_head_pot (blk s) (match sel with Some _ => true | None => succ s end) 1 (le_n 1)). lia.
   - (* CLockT *) destruct (free s); [|discriminate]. inversion Hs; subst s'; clear Hs.
-    unfold Phi, wsum. cbn [cp blk wp st set_cp set_mtx]. rewrite Hc. cbn [cpot]. unfold Tl. lia.
+    unfold Phi, wsum. cbn [cp blk wp st set_cp set_mtx]. rewrite Hc. cbn [cpot crt]. unfold Tl. lia.
   - (* CSetTerm *) inversion Hs; subst s'; clear Hs.
     unfold Phi, wake_all. cbn [cp blk set_cp set_wp set_st]. rewrite Hc. unfold wsum. cbn [wp st set_cp set_wp set_st].
     assert (H : wsumn N (fun j => wpot (wake_w (wp s j)) (if j <? N then TERM else st s j))
                 <= wsumn N (fun j => wpot (wp s j) (st s j)) + N * 2).
     { apply wsumn_bound. intros j Hj. apply Nat.ltb_lt in Hj. rewrite Hj. apply term_pot. }
-    cbn [cpot]. lia.
+    cbn [cpot crt]. lia.
   - (* CUnlockT *) inversion Hs; subst s'; clear Hs.
-    unfold Phi, wsum. cbn [cp blk wp st set_cp set_mtx]. rewrite Hc. cbn [cpot]. lia.
+    unfold Phi, wsum. cbn [cp blk wp st set_cp set_mtx]. rewrite Hc. cbn [cpot crt]. lia.
   - (* CJoin k *) destruct (wp s k); try discriminate Hs. inversion Hs; subst s'; clear Hs.
     unfold Phi, wsum. cbn [cp blk wp st set_cp]. rewrite Hc.
-    destruct (S k <? N) eqn:Ek; cbn [cpot]; [apply Nat.ltb_lt in Ek|]; lia.
+    destruct (S k <? N) eqn:Ek; cbn [cpot crt]; [apply Nat.ltb_lt in Ek|]; lia.
   - (* CCleanup *) inversion Hs; subst s'; clear Hs.
-    unfold Phi, wsum. cbn [cp blk wp st set_cp]. rewrite Hc. cbn [cpot]. lia.
+    unfold Phi, wsum. cbn [cp blk wp st set_cp]. rewrite Hc. cbn [cpot crt]. lia.
 Qed.
 
 (* (1) *)
@@ -299,7 +335,7 @@ Lemma spurious_raises : forall s t s', spurious N s t = Some s' -> Phi s' <= Phi
 Proof.
   intros s [|j] s' Hs; simpl in Hs.
   - destruct (cp s) eqn:Hc; try discriminate Hs. inversion Hs; subst s'; clear Hs.
-    unfold Phi, wsum. cbn [cp blk wp st set_cp]. rewrite Hc. cbn [cpot]. lia.
+    unfold Phi, wsum. cbn [cp blk wp st set_cp]. rewrite Hc. cbn [cpot crt]. lia.
   - destruct (j <? N) eqn:Ej; [|discriminate]. apply Nat.ltb_lt in Ej.
     destruct (wp s j) eqn:Hp; try discriminate Hs. inversion Hs; subst s'; clear Hs.
     unfold Phi. cbn [cp blk set_wp]. unfold wsum at 1. cbn [wp st set_wp].
@@ -441,7 +477,7 @@ Qed.
 End Live.
 
 (* ---- the bound on a concrete instance: N = 2 workers, na = 3 trial steps (2 blocks) ---- *)
-Lemma ex_bound : B0 2 3 = 106 /\ Bmax 2 3 = 166 /\ length ex_schedule <= B0 2 3 /\
+Lemma ex_bound : B0 2 3 = 82 /\ Bmax 2 3 = 172 /\ length ex_schedule <= B0 2 3 /\
   exists s, run 2 3 lt_ex true init ex_schedule = Some s /\ finished s /\ Phi 2 3 s = 0.
 Proof.
   split; [vm_compute; reflexivity|]. split; [vm_compute; reflexivity|]. split; [vm_compute; lia|].
